@@ -83,6 +83,67 @@ theorem c06_adjugate_eigvec (M : M9) (l : Rat) :
   simp only [quatOf, P, C2, C1, C0, detM, keyK]
   refine ⟨by ring, by ring, by ring, by ring⟩
 
+theorem quatOf_eq_adjCol (M : M9) (l : Rat) : quatOf M l = adjCol M l 0 := by
+  simp [quatOf, adjCol, cofactor4, shifted, List.range, List.range.loop, List.filter, keyK]
+  refine ⟨by ring, by ring, by ring, by ring⟩
+
+/-- **every column of the adjugate works**: (K − λI)·adjCol_j = P(λ)·e_j, j = 0..3 -/
+theorem c06_adjugate_columns (M : M9) (l : Rat) (j : Nat) (hj : j < 4) (i : Nat) (hi : i < 4) :
+    let q := adjCol M l j
+    shifted M l i 0 * q.q0 + shifted M l i 1 * q.q1 + shifted M l i 2 * q.q2 + shifted M l i 3 * q.q3 = if i = j then P M l else 0 := by
+  have hj' : j = 0 ∨ j = 1 ∨ j = 2 ∨ j = 3 := by omega
+  have hi' : i = 0 ∨ i = 1 ∨ i = 2 ∨ i = 3 := by omega
+  rcases hj' with rfl | rfl | rfl | rfl <;> rcases hi' with rfl | rfl | rfl | rfl <;>
+    simp [adjCol, cofactor4, shifted, List.range, List.range.loop, List.filter, keyK, P, C2, C1, C0, detM] <;> ring
+
+/-- the diagonal of the adjugate sums to −P′(λ): at a simple root some column is non-zero -/
+theorem c06_adjugate_trace (M : M9) (l : Rat) :
+    (adjCol M l 0).q0 + (adjCol M l 1).q1 + (adjCol M l 2).q2 + (adjCol M l 3).q3 = - dP M l := by
+  simp [adjCol, cofactor4, shifted, List.range, List.range.loop, List.filter, keyK, dP, C2, C1, detM]
+  ring
+
+theorem norm2_nonneg (q : Quat) : 0 ≤ q.norm2 := by
+  unfold Quat.norm2; nlinarith [mul_self_nonneg q.q0, mul_self_nonneg q.q1, mul_self_nonneg q.q2, mul_self_nonneg q.q3]
+
+theorem norm2_eq_zero (q : Quat) (h : q.norm2 = 0) : q.q0 = 0 ∧ q.q1 = 0 ∧ q.q2 = 0 ∧ q.q3 = 0 := by
+  unfold Quat.norm2 at h
+  have h0 := mul_self_nonneg q.q0; have h1 := mul_self_nonneg q.q1; have h2 := mul_self_nonneg q.q2; have h3 := mul_self_nonneg q.q3
+  refine ⟨?_, ?_, ?_, ?_⟩ <;> apply mul_self_eq_zero.mp <;> linarith
+
+/-- the chosen column is one of the four and has the largest norm -/
+theorem bestCol_spec (M : M9) (l : Rat) :
+    (∃ j, j < 4 ∧ bestCol M l = adjCol M l j) ∧ ∀ j, j < 4 → (adjCol M l j).norm2 ≤ (bestCol M l).norm2 := by
+  simp only [bestCol, List.foldl_cons, List.foldl_nil, quatOf_eq_adjCol]
+  constructor
+  · split_ifs <;> first | exact ⟨0, by omega, rfl⟩ | exact ⟨1, by omega, rfl⟩ | exact ⟨2, by omega, rfl⟩ | exact ⟨3, by omega, rfl⟩
+  · intro j hj
+    have hj' : j = 0 ∨ j = 1 ∨ j = 2 ∨ j = 3 := by omega
+    rcases hj' with rfl | rfl | rfl | rfl <;> split_ifs <;> linarith
+
+/-- **at a simple root the quaternion the code uses is a non-zero eigenvector**: the half-turn case, where the first column vanishes, included -/
+theorem c06_bestCol_nonzero (M : M9) (l : Rat) (hsimple : dP M l ≠ 0) : (bestCol M l).norm2 ≠ 0 := by
+  intro h0
+  have hle := (bestCol_spec M l).2
+  have hz : ∀ j, j < 4 → (adjCol M l j).norm2 = 0 := fun j hj => le_antisymm (h0 ▸ hle j hj) (norm2_nonneg _)
+  have t := c06_adjugate_trace M l
+  rw [(norm2_eq_zero _ (hz 0 (by omega))).1, (norm2_eq_zero _ (hz 1 (by omega))).2.1, (norm2_eq_zero _ (hz 2 (by omega))).2.2.1,
+    (norm2_eq_zero _ (hz 3 (by omega))).2.2.2] at t
+  apply hsimple; linarith
+
+/-- and it satisfies K q = λ q at a root, whichever column was taken -/
+theorem c06_bestCol_eigvec (M : M9) (l : Rat) (hroot : P M l = 0) (i : Nat) (hi : i < 4) :
+    let q := bestCol M l
+    shifted M l i 0 * q.q0 + shifted M l i 1 * q.q1 + shifted M l i 2 * q.q2 + shifted M l i 3 * q.q3 = 0 := by
+  obtain ⟨j, hj, e⟩ := (bestCol_spec M l).1
+  have := c06_adjugate_columns M l j hj i hi
+  simp only [e]
+  rw [this, hroot]; simp
+
+/-- the first column does vanish for a half turn: structure b = a rotated by π about z (M = diag-like with m0 = −sxx …) -/
+example : (quatOf (innerM [(⟨1, 0, 0⟩, ⟨-1, 0, 0⟩), (⟨0, 2, 0⟩, ⟨0, -2, 0⟩), (⟨0, 0, 3⟩, ⟨0, 0, 3⟩)]) 14).norm2 = 0 ∧
+    (bestCol (innerM [(⟨1, 0, 0⟩, ⟨-1, 0, 0⟩), (⟨0, 2, 0⟩, ⟨0, -2, 0⟩), (⟨0, 0, 3⟩, ⟨0, 0, 3⟩)]) 14).norm2 ≠ 0 := by
+  decide +kernel
+
 /-- at a root, qᵀKq = λ|q|² for the coded quaternion -/
 theorem c06_rayleigh_at_root (M : M9) (l : Rat) (hroot : P M l = 0) :
     quadK M (quatOf M l) = l * (quatOf M l).norm2 := by
@@ -91,6 +152,17 @@ theorem c06_rayleigh_at_root (M : M9) (l : Rat) (hroot : P M l = 0) :
   rw [hroot] at h0
   simp only [quadK, Quat.norm2]
   linear_combination (quatOf M l).q0 * h0 + (quatOf M l).q1 * h1 + (quatOf M l).q2 * h2 + (quatOf M l).q3 * h3
+
+/-- the same for the column the code actually uses -/
+theorem c06_rayleigh_bestCol (M : M9) (l : Rat) (hroot : P M l = 0) :
+    quadK M (bestCol M l) = l * (bestCol M l).norm2 := by
+  have h0 := c06_bestCol_eigvec M l hroot 0 (by omega)
+  have h1 := c06_bestCol_eigvec M l hroot 1 (by omega)
+  have h2 := c06_bestCol_eigvec M l hroot 2 (by omega)
+  have h3 := c06_bestCol_eigvec M l hroot 3 (by omega)
+  simp only [shifted] at h0 h1 h2 h3
+  simp only [quadK, Quat.norm2]
+  linear_combination (bestCol M l).q0 * h0 + (bestCol M l).q1 * h1 + (bestCol M l).q2 * h2 + (bestCol M l).q3 * h3
 
 /-- **optimality, given the Rayleigh bound**: no rotation R(q) does better than G_a + G_b − 2λ -/
 theorem c06_optimal_of_bound (pairs : List (V3 × V3)) (l : Rat)
